@@ -221,7 +221,8 @@ type Batch struct {
 	Name     string   // batch name (file stem)
 	Imports  string   // Require Import line
 	CaseType string   // Coq type of one case
-	ChkFn    string   // Coq function case -> bool
+	ChkFn    string   // Coq function case -> bool (or case -> list N when Codes is set)
+	Codes    bool     // ChkFn returns the codes of the comparisons that failed
 	OutFn    string   // Coq function case -> model output (for diagnostics)
 	Cases    []Case
 }
@@ -232,6 +233,7 @@ type Mismatch struct {
 	Sample   interface{} `json:"case"`
 	CoqCase  string      `json:"coq_case"`
 	ModelOut string      `json:"model_output"`
+	Codes    []int       `json:"failed_comparisons,omitempty"`
 }
 
 var coqFlags = []string{"-Q", "Model", "", "-Q", "Generated", "", "-Q", "Proofs", "", "-Q", "Properties", "", "-Q", "Corr", "",
@@ -254,6 +256,16 @@ func runCoqc(dir string, file string, timeout time.Duration) (string, error) {
 }
 
 var reM = regexp.MustCompile(`(?s)M\s*=\s*\[(.*?)\]`)
+var rePair = regexp.MustCompile(`(?s)\((\d+)%nat,\s*\[([^\]]*)\]\)`)
+var reNum = regexp.MustCompile(`\d+`)
+var reEmpty = regexp.MustCompile(`(?s)^M\s*=\s*\[\s*\]`)
+
+func m1(m []string) string {
+	if m == nil {
+		return ""
+	}
+	return m[1]
+}
 
 const shardSize = 400
 
@@ -265,8 +277,9 @@ func RunBatch(b *Batch, useRef bool) ([]Mismatch, error) {
 	n := len(b.Cases)
 	nsh := (n + shardSize - 1) / shardSize
 	type shardRes struct {
-		idx []int
-		err error
+		idx   []int
+		codes [][]int
+		err   error
 	}
 	results := make([]shardRes, nsh)
 	var wg sync.WaitGroup
@@ -292,7 +305,11 @@ func RunBatch(b *Batch, useRef bool) ([]Mismatch, error) {
 				fmt.Fprintf(&sb, " (%d%%nat, %s)%s\n", i, b.Cases[i].Term, sep)
 			}
 			sb.WriteString("].\n")
-			fmt.Fprintf(&sb, "Definition M := Eval vm_compute in mismatches %s cases.\nPrint M.\n", b.ChkFn)
+			if b.Codes {
+				fmt.Fprintf(&sb, "Definition M := Eval vm_compute in failures %s cases.\nPrint M.\n", b.ChkFn)
+			} else {
+				fmt.Fprintf(&sb, "Definition M := Eval vm_compute in mismatches %s cases.\nPrint M.\n", b.ChkFn)
+			}
 			stem := fmt.Sprintf("%s_%s_%d", b.Prop, b.Name, s)
 			f := filepath.Join(work, stem+".v")
 			os.WriteFile(f, []byte(sb.String()), 0o644)
@@ -301,12 +318,36 @@ func RunBatch(b *Batch, useRef bool) ([]Mismatch, error) {
 				results[s].err = fmt.Errorf("coqc failed on %s: %v\n%s", f, err, tail(out, 2000))
 				return
 			}
+			if b.Codes {
+				mi := strings.Index(out, "M =")
+				if mi < 0 {
+					results[s].err = fmt.Errorf("cannot parse coqc output for %s: %s", f, tail(out, 500))
+					return
+				}
+				for _, pm := range rePair.FindAllStringSubmatch(out[mi:], -1) {
+					k, _ := strconv.Atoi(pm[1])
+					var cs []int
+					for _, c := range reNum.FindAllString(pm[2], -1) {
+						x, _ := strconv.Atoi(c)
+						cs = append(cs, x)
+					}
+					results[s].idx = append(results[s].idx, k)
+					results[s].codes = append(results[s].codes, cs)
+				}
+				if len(results[s].idx) == 0 && !reEmpty.MatchString(out[mi:]) {
+					results[s].err = fmt.Errorf("cannot parse coqc output for %s: %s", f, tail(out, 500))
+					return
+				}
+			}
 			m := reM.FindStringSubmatch(out)
-			if m == nil {
+			if !b.Codes && m == nil {
 				results[s].err = fmt.Errorf("cannot parse coqc output for %s: %s", f, tail(out, 500))
 				return
 			}
-			for _, t := range strings.Split(m[1], ";") {
+			for _, t := range strings.Split(m1(m), ";") {
+				if b.Codes {
+					break
+				}
 				t = strings.TrimSpace(strings.TrimSuffix(strings.TrimSpace(t), "%nat"))
 				if t == "" {
 					continue
@@ -333,8 +374,12 @@ func RunBatch(b *Batch, useRef bool) ([]Mismatch, error) {
 		if r.err != nil {
 			return nil, r.err
 		}
-		for _, k := range r.idx {
-			mm = append(mm, Mismatch{Batch: b.Name, Index: k, Sample: b.Cases[k].Sample, CoqCase: b.Cases[k].Term})
+		for j, k := range r.idx {
+			m := Mismatch{Batch: b.Name, Index: k, Sample: b.Cases[k].Sample, CoqCase: b.Cases[k].Term}
+			if j < len(r.codes) {
+				m.Codes = r.codes[j]
+			}
+			mm = append(mm, m)
 		}
 	}
 	// model output for (a few of) the mismatches
